@@ -797,7 +797,7 @@ func main() {
 		scenarios = append(scenarios, doubleStopScenario(how, b))
 	}
 	// the stop signal raised from inside OnEvent
-	scenarios = append(scenarios, selfStopScenario(false), selfStopScenario(true))
+	scenarios = append(scenarios, selfStopScenario(false), selfStopScenario(true), selfStopScenarioW(false, true), selfStopScenarioW(true, true))
 	// Listener values of every dynamic kind
 	for _, k := range []string{"pointer", "struct-value", "map", "func", "int"} {
 		scenarios = append(scenarios, listenerKindScenario(k))
@@ -893,6 +893,9 @@ type selfStopListener struct {
 	listener
 	q    chan os.Signal
 	done bool
+	// returned: when non-nil the callback, having raised the stop, waits until Listen has returned
+	// ("signal, then wait for the listener to finish" - a common shutdown idiom) before it returns itself
+	returned chan struct{}
 }
 
 func (l *selfStopListener) OnEvent(s *types.Status) {
@@ -900,10 +903,15 @@ func (l *selfStopListener) OnEvent(s *types.Status) {
 	if !l.done {
 		l.done = true
 		vs.Send(l.q, os.Signal(os.Interrupt))
+		if l.returned != nil {
+			vs.Recv(l.returned)
+		}
 	}
 }
 
-func selfStopScenario(buffered bool) e1.Scenario {
+func selfStopScenario(buffered bool) e1.Scenario { return selfStopScenarioW(buffered, false) }
+
+func selfStopScenarioW(buffered, wait bool) e1.Scenario {
 	var l1 *selfStopListener
 	var ret error
 	var done bool
@@ -913,6 +921,9 @@ func selfStopScenario(buffered bool) e1.Scenario {
 			n = 1
 		}
 		l1 = &selfStopListener{q: make(chan os.Signal, n)}
+		if wait {
+			l1.returned = make(chan struct{})
+		}
 		done, ret = false, nil
 		c1 := l1
 		vs.Net().Env = &farm.Farm{}
@@ -923,13 +934,16 @@ func selfStopScenario(buffered bool) e1.Scenario {
 		}
 		ret = u.Listen(c1, c1.q)
 		done = true
+		if c1.returned != nil {
+			vs.Close(c1.returned)
+		}
 	}
 	check := func(e *vs.Exec) (string, []e1.Viol) {
 		viols := e1.Generic(e)
 		if e.Abort != "" {
 			return e.Abort, viols
 		}
-		what := fmt.Sprintf("OnEvent sends the stop signal itself (buffered channel: %v)", buffered)
+		what := fmt.Sprintf("OnEvent sends the stop signal itself (buffered channel: %v; then waits for Listen to return: %v)", buffered, wait)
 		if !done || ret != nil {
 			viols = append(viols, e1.Viol{Key: "stop-from-callback/listener-did-not-return-nil", What: fmt.Sprintf("returned=%v err=%v (%s)", done, ret, what)})
 		}
@@ -938,5 +952,5 @@ func selfStopScenario(buffered bool) e1.Scenario {
 		}
 		return fmt.Sprintf("stop-from-callback ret=%v", ret == nil), viols
 	}
-	return e1.Scenario{Name: fmt.Sprintf("stop-from-callback/buffered=%v", buffered), Bound: 1, Body: body, Check: check, Opt: vs.Options{Horizon: 3000}}
+	return e1.Scenario{Name: fmt.Sprintf("stop-from-callback/buffered=%v/waits-for-return=%v", buffered, wait), Bound: 1, Body: body, Check: check, Opt: vs.Options{Horizon: 3000}}
 }
